@@ -139,6 +139,15 @@ def search(pid, unit, failure, tier='quick', seed=0):
     if unit == 'U-LABEL':
         from . import witness_alpha
         return witness_alpha.search_labels(deadline, rng)
+    if pid == 'C11' and unit == 'U-ALIGN':
+        from . import witness_layout
+        return witness_layout.search(deadline, rng)
+    if pid == 'C08' and unit in ('U-MUT', 'U-MUTW', 'U-FCALL'):
+        from . import witness_mut
+        return witness_mut.search(deadline, rng)
+    if pid == 'C07' and unit in ('U-RES', 'U-FCALL', 'U-VT'):
+        from . import witness_types
+        return witness_types.search(deadline, rng)
     if unit == 'U-LEXA':
         from . import witness_lexa
         return witness_lexa.search(deadline, rng)
@@ -155,6 +164,15 @@ def replay(w):
         r = replayrun.run(w['mode'], data, timeout=30)
         if w['mode'] == 'delta' and 'expect_result' not in w:
             return _crashes(r)
+        if w.get('expect_verdict_layout'):
+            from . import witness_layout
+            return not witness_layout.verdict_ok(w['expect_verdict_layout'], r)
+        if w.get('expect_verdict_mut'):
+            from . import witness_mut
+            return not witness_mut.verdict_ok(w['expect_verdict_mut'], r)
+        if w.get('expect_verdict'):
+            from . import witness_types
+            return not witness_types.verdict_ok(w['expect_verdict'], r)
         exp = w.get('expect_result')
         if exp is not None:
             return r.get('status') != 'ok' or any(str(r['result'].get(k)) != str(v) for k, v in exp.items())
